@@ -89,7 +89,8 @@ AliasForms(t) ==
 QualSeqs == {<< >>, <<"const">>, <<"volatile">>, <<"const", "volatile">>}
 AbiForms == {<< >>, <<"__cdecl">>, <<"__stdcall">>}
 
-(* parameter spellings: 0 canonical; "named" every parameter gets a name; "void" for an
+(* parameter spellings: "alias" every parameter that is Param(T) of an array or function typedef T
+   is written as that typedef's name (C adjusts it: Param(t) denotes Adjust(t)); "canon"; "named" every parameter gets a name; "void" for an
    empty list; "arr" the first pointer parameter is written as an array; "fn" the first
    function-pointer parameter is written as a function *)
 RECURSIVE ParamToks(_, _, _, _)
@@ -98,7 +99,9 @@ ParamToks(a, ell, pv, i) ==
     ELSE LET first(Pr(_)) == Pr(a[i]) /\ \A j \in 1..(i - 1) : ~Pr(a[j])
              isp(x) == x.k = "ptr" /\ x.t.k # "fn" /\ Complete(x.t)
              isf(x) == IsFnPtr(x)
-             one == IF pv = "named" THEN Canon(a[i], <<"p" \o ToString(i)>>)
+             al == {n \in DOMAIN Typedefs : Typedefs[n].k \in {"arr", "fn"} /\ Adjust(Typedefs[n]) = a[i]}
+             one == IF pv = "alias" /\ al # {} THEN <<CHOOSE n \in al : TRUE>>      \* Param(vec_t) = Adjust(int[5])
+                    ELSE IF pv = "named" THEN Canon(a[i], <<"p" \o ToString(i)>>)
                     ELSE IF pv = "arr" /\ first(isp) THEN Canon(Arr(a[i].t, IF i = 1 THEN Open ELSE 3), << >>)
                     ELSE IF pv = "fn" /\ first(isf)
                          THEN Canon(a[i].t.res, <<"f", "(">> \o CanonArgs(a[i].t.args, a[i].t.ell, 1) \o <<")">>)
@@ -108,6 +111,8 @@ ParamVariants(a, ell) ==
     {"canon"} \cup (IF Len(a) > 0 THEN {"named"} ELSE {"void"})
     \cup (IF \E i \in 1..Len(a) : a[i].k = "ptr" /\ a[i].t.k # "fn" /\ Complete(a[i].t) THEN {"arr"} ELSE {})
     \cup (IF \E i \in 1..Len(a) : IsFnPtr(a[i]) THEN {"fn"} ELSE {})
+    \cup (IF \E i \in 1..Len(a), n \in DOMAIN Typedefs :
+               Typedefs[n].k \in {"arr", "fn"} /\ Adjust(Typedefs[n]) = a[i] THEN {"alias"} ELSE {})
 Params(a, ell, pv) == IF pv = "void" THEN <<"void">> ELSE ParamToks(a, ell, pv, 1)
 
 Wrap(d) == <<"(">> \o d \o <<")">>
@@ -149,6 +154,11 @@ StepFnPtr == /\ phase = "decl" /\ IsFnPtr(rest)
                      /\ nvar' = nvar + cost
              /\ rest' = rest.t.res /\ UNCHANGED <<term, phase, toks, nm, obs>>
 
+(* a pointer to a function type that has a typedef name: '*' and then that name as the base *)
+StepFnAlias == /\ phase = "decl" /\ IsFnPtr(rest) /\ \E n \in DOMAIN Typedefs : Typedefs[n] = rest.t
+               /\ nvar < MaxVar /\ decl' = <<"*">> \o decl /\ nvar' = nvar + 1 /\ rest' = rest.t
+               /\ UNCHANGED <<term, phase, toks, nm, obs>>
+
 StepArr == /\ phase = "decl" /\ rest.k = "arr"
            /\ \E f \in (IF rest.len = Open THEN {""} ELSE NumForms(rest.len)) :
                 LET cost == B2N(f # "" /\ f # ToString(rest.len))
@@ -162,7 +172,7 @@ Paren == /\ phase = "decl" /\ decl # << >> /\ decl # <<"x">> /\ nvar < MaxVar
          /\ decl' = Wrap(decl) /\ nvar' = nvar + 1 /\ UNCHANGED <<term, rest, phase, toks, nm, obs>>
 
 Finish == /\ phase = "decl"
-          /\ \E f \in (IF rest.k \in {"ptr", "arr"} THEN {} ELSE BaseForms(rest)) \cup AliasForms(rest) :
+          /\ \E f \in (IF rest.k \in {"ptr", "arr", "fn"} THEN {} ELSE BaseForms(rest)) \cup AliasForms(rest) :
                /\ nvar + f[2] <= MaxVar
                /\ toks' = f[1] \o decl /\ nvar' = nvar + f[2]
           /\ obs' = ObsOf(toks') /\ phase' = "done" /\ UNCHANGED <<term, rest, decl, nm>>
@@ -181,7 +191,7 @@ NearMiss == /\ phase = "done" /\ nvar <= NmVar /\ DepthOf(term) <= NmDepth
                                              /\ nm' = <<"ins", i, a>>
             /\ obs' = ObsOf(toks') /\ phase' = "nm" /\ UNCHANGED <<term, rest, decl, nvar>>
 
-Next == Grow \/ Begin \/ Ident \/ StepPtr \/ StepFnPtr \/ StepArr \/ Paren \/ Finish \/ NearMiss
+Next == Grow \/ Begin \/ Ident \/ StepPtr \/ StepFnPtr \/ StepFnAlias \/ StepArr \/ Paren \/ Finish \/ NearMiss
 Spec == Init /\ [][Next]_vars
 
 -----------------------------------------------------------------------------
@@ -194,7 +204,7 @@ ReadsBack == phase = "done" => obs.rd = [r |-> "ok", t |-> term]
    except in the listed classes, where it may reject *)
 ParseCAgrees == phase = "done" =>
                   IF obs.cls = {} THEN obs.pc = [r |-> "ok", t |-> term]
-                  ELSE obs.pc.r = "syntax" \/ obs.pc = [r |-> "ok", t |-> term]
+                  ELSE obs.pc.r \in {"syntax", "invalid"} \/ obs.pc = [r |-> "ok", t |-> term]
 (* non-vacuity of the classes: without the exemption the law is false *)
 ParseCStrict == phase = "done" => obs.pc = [r |-> "ok", t |-> term]
 (* the in-line parser's specifier normalisation accepts exactly the orders that do not put
